@@ -290,14 +290,37 @@ func (f *Follower) Close() {
 
 // RestartEngine stops node i's replication manager and API server, restarts its engine on the same
 // file systems, and brings the manager and API server back.
-func (f *Follower) RestartEngine(i int) error {
+func (f *Follower) RestartEngine(i int) error { return f.RestartEngineWith(i, nil) }
+
+// RestartEngineWith runs between() while the node is down.
+func (f *Follower) RestartEngineWith(i int, between func()) error {
+	return f.restartEngine(i, between, false)
+}
+
+// CrashEngineWith closes the engine first, under the running replication manager (whatever the
+// workers are doing at that moment fails, as it does when the node goes away), and only then
+// stops the manager; between() runs while the node is down.
+func (f *Follower) CrashEngineWith(i int, between func()) error {
+	return f.restartEngine(i, between, true)
+}
+
+func (f *Follower) restartEngine(i int, between func(), engineFirst bool) error {
 	fn := f.N[i]
+	if engineFirst {
+		f.Cluster.StopNode(i)
+	}
 	f.StopManager(i)
 	if fn.stopAPI != nil {
 		fn.stopAPI()
 		fn.stopAPI = nil
 	}
-	if err := f.Cluster.RestartNode(i); err != nil {
+	if !engineFirst {
+		f.Cluster.StopNode(i)
+	}
+	if between != nil {
+		between()
+	}
+	if err := f.Cluster.StartNode(i); err != nil {
 		return err
 	}
 	e := f.Nodes[i].Engine
